@@ -32,7 +32,9 @@ URL: TypeAlias = AnyHttpUrl
 Text: TypeAlias = NonEmptyStr
 Number: TypeAlias = Union[Int, Float]
 
-DateOrDatetime = Union[date, datetime]
+# NOTE: datetime must come first - the date parser of pydantic also accepts a datetime
+# object and silently truncates it (e.g. on re-validation of a partial)
+DateOrDatetime = Union[datetime, date]
 TimeOrDatetime = Union[time, datetime]
 
 # ----
